@@ -147,6 +147,15 @@ SPECS = [
     dict(name="smc_loop_body", py="samplers/smc/base.py:SMCSampler.sample", mode="smcloop", part="body"),
     dict(name="smc_epilogue", py="samplers/smc/base.py:SMCSampler.sample", mode="smcloop", part="epilogue"),
     dict(name="smc_driver", py="samplers/smc/base.py:SMCSampler.sample", mode="smcloop", part="driver"),
+    # how the samplers evaluate the user's functions (sixth vocabulary: eval2lean.py)
+    dict(name="sampler_log_likelihood", py="samplers/base.py:Sampler.log_likelihood", mode="eval", part="wrapper"),
+    dict(name="draw_initial_samples", py="samplers/mcmc.py:MCMCSampler.draw_initial_samples", mode="eval", part="draw"),
+    dict(name="importance_eval", py="samplers/importance.py:ImportanceSampler.sample", mode="eval", part="idiom", start="samples = Samples(",
+         stop=".log_likelihood", given_log_q=True),
+    dict(name="mcmc_target_eval", py="samplers/mcmc.py:MCMCSampler.log_prob", mode="eval", part="idiom", start="samples = Samples(", stop=".log_likelihood"),
+    dict(name="smc_target_eval", py="samplers/smc/base.py:SMCSampler.log_prob", mode="eval", part="idiom", start="samples = SMCSamples(", stop=".log_likelihood"),
+    dict(name="minipcn_mutate_eval", py="samplers/smc/minipcn.py:MiniPCNSMC.mutate", mode="eval", part="idiom", start="samples = SMCSamples(", stop=".log_likelihood"),
+    dict(name="emcee_mutate_eval", py="samplers/smc/emcee.py:EmceeSMC.mutate", mode="eval", part="idiom", start="samples = SMCSamples(", stop=".log_likelihood"),
     # the checkpoint-file blocks of fit / sample_posterior (fifth vocabulary: file2lean.py)
     dict(name="fit_file_block", py="aspire.py:Aspire.fit", mode="file", part="fit"),
     dict(name="sample_pre_block", py="aspire.py:Aspire.sample_posterior", mode="file", part="sample_pre"),
@@ -172,6 +181,8 @@ GROUPS = {
     "SrcFlows": ([], ["zuko_log_prob", "zuko_sample_and_log_prob", "flowjax_log_prob", "flowjax_sample_and_log_prob"]),
     "SrcDump": ([], ["dump_pickle_to_hdf"]),
     "SrcLoop": ([], ["should_checkpoint", "loop_exit", "init_min_step", "resume_loop_flag", "final_evidence"]),
+    "SrcEval": (["EvalOps"], ["sampler_log_likelihood", "draw_initial_samples", "importance_eval", "mcmc_target_eval", "smc_target_eval",
+                              "minipcn_mutate_eval", "emcee_mutate_eval"]),
     "SrcFile": (["FileOps"], ["fit_file_block", "sample_pre_block", "sample_post_block"]),
     "SrcCtx": (["CtxOps"], ["pool_enter", "pool_exit", "auto_enter", "auto_finally"]),
     "SrcSmcLoop": (["LoopOps"], ["smc_maybe_checkpoint", "smc_loop_body", "smc_epilogue", "smc_driver"]),
